@@ -14,6 +14,7 @@ from ml_pipeline_engine.dag.enums import EdgeField
 from ml_pipeline_engine.dag.enums import NodeField
 from ml_pipeline_engine.dag.errors import OneOfDoesNotHaveResultError
 from ml_pipeline_engine.dag.errors import RecurrentSubgraphDoesNotHaveResultError
+from ml_pipeline_engine.dag.errors import SwitchCaseDoesNotHaveBranchError
 from ml_pipeline_engine.dag.graph import DiGraph
 from ml_pipeline_engine.dag.graph import get_connected_subgraph
 from ml_pipeline_engine.dag.storage import DAGNodeStorage
@@ -599,7 +600,20 @@ class DAGRunConcurrentManager(DAGRunManagerLike):
 
         logger.debug('Prepare Switch DAG node_id=%s', node_id)
 
-        self._add_case_result(node_id)
+        try:
+            self._add_case_result(node_id)
+
+        except KeyError as ex:
+            # The switch node returned a label that has no case
+            error = SwitchCaseDoesNotHaveBranchError(dict(node_id=node_id, label=ex.args[0] if ex.args else None))
+
+            if dag.is_oneof:
+                self._node_storage.set_node_result(node_id, error)
+                await self.__unlock_itself(node_id)
+                await self.__unlock_descendants(node_id)
+                return None
+
+            await self.__raise_exc(error)
 
         return await self._run_dag(
             dag=self._get_reduced_dag(
